@@ -297,7 +297,7 @@ def case_wraps(case, col=None):
             raise Violation("wraps_return_tuple", f"{_sample(case)}: returned {out!r}")
     else:
         want = eval_units_expr(ret["expr"], bound)
-        if not isinstance(out, list) or len(out) != 2 or units_of(out[0]) != want or out[0].magnitude != 7 or units_of(out[1]) != {ret["unit"]: 1} or out[1].magnitude != 9:
+        if not isinstance(out, list) or len(out) != 2 or not all(hasattr(o, "_units") for o in out) or units_of(out[0]) != want or out[0].magnitude != 7 or units_of(out[1]) != {ret["unit"]: 1} or out[1].magnitude != 9:
             raise Violation("wraps_return_list", f"{_sample(case)}: returned {out!r}, expected [7 {want}, 9 {ret['unit']}]")
 
 
